@@ -78,6 +78,18 @@ def replay_case(case):
         bad.append(("formula_to_composition", o1))
     if not _agrees(o2, case["exp"]):
         bad.append(("Substance.from_formula", o2))
+    # configuration: the caller passes the ignore lists explicitly - exactly the prefixes and the suffix this formula
+    # carries (as list / tuple)
+    exp = case["exp"]
+    if not exp["raise"]:
+        pl, sl = list(exp["prefix_list"]), list(exp["suffix_list"])
+        for what, mk in (("formula_to_composition[own lists]",
+                          lambda s: formula_to_composition(s, prefixes=pl, suffixes=tuple(sl))),
+                         ("formula_to_composition[own lists, generators]",
+                          lambda s: formula_to_composition(s, prefixes=tuple(pl), suffixes=list(sl)))):
+            o4 = fc.observe(mk, t)
+            if not _agrees(o4, exp):
+                bad.append((what, o4))
     # the phase-aware constructor reads the same composition, whether the phase index comes from the suffix
     # or is given explicitly
     from chempy import Species
